@@ -43,6 +43,9 @@ CHECKS = {
  "C05": (EX, "vmc", "exhaustive sweep of argument tuples, token strings and byte strings; every case under catch_unwind in supervised child processes with overflow checks and debug assertions",
    "Every native filter and definition discovered from the current tree, in value, path() and update position, x every tuple of input and arguments over a pool of ~50 (thorough ~100) boundary values (exhaustive for arity <= 1, thorough <= 2; 8 spread values for further positions); every string of <= 3 (thorough 4) tokens over 71 lexer-relevant tokens as filter text: lexed, parsed, loaded, compiled, every diagnostic rendered plain and coloured with every span checked to lie inside the text on character boundaries, accepted programs run; every string of <= 3..4 tokens over structural alphabets through the JSON, YAML, TOML, XML, CSV, TSV and base64 decoders and every byte string of length <= 2 (thorough 3) through the CBOR decoder. A panic, abort or fatal signal is a violation; the supervisor resumes after the fatal case.",
    "not a proof of panic freedom: exhaustive over the stated alphabets only; allocation failure/capacity overflow excluded as resource exhaustion; repetition counts and Bessel orders limited to |n| <= 64", "DESIGN.md §2 C05"),
+ "C18": (FE, "vmc+py", "exhaustive crash-point and fault enumeration at the system-call boundary (ptrace monitor) over a scenario table; file-system invariant checked after every run",
+   "For each scenario (1..3 files; larger/smaller/equal/empty output; filter error after 0/1 outputs; halt; parse error at value 0/1; failing later file; permission bits; path forms; JSON/YAML/TOML) a dry run records every file-system and write system call after the first input open; the invocation is repeated with the process tree killed before each call, with each failable call failing with each errno of {ENOSPC, EACCES} (thorough: + EIO, EINTR, EROFS), and with each write short. After every run: every input file holds its original bytes or exactly what the invocation without -i prints; replaced only if the filter finished on it and all earlier files were replaced; failed writes never end in status 0; after completion permission bits are unchanged and no temporary file remains.",
+   "kill = process tree gone before a system call; power-loss page-cache tearing is out of scope (the property speaks of the process being killed); x86_64 Linux", "DESIGN.md §2 C18"),
 }
 PENDING = {}
 def main():
@@ -68,7 +71,7 @@ def main():
         "hooks": {"guard": "jaq_verif (reserved; no hooks are needed: every observation point is reachable through public API)", "enable": "none (checks build /repo unchanged)",
                   "baseline_off_cmd": "cd /repo && cargo test --workspace --no-fail-fast --offline", "source_commits": [], "add_only": True},
         "engines": [
-            {"name": "py", "path": "py", "serves_properties": ["C13", "C14"], "kind_free_text": "Python 3 standard-library drivers for process-level checks and independent consumers"},
+            {"name": "py", "path": "py", "serves_properties": ["C13", "C14", "C18"], "kind_free_text": "Python 3 standard-library drivers for process-level checks and independent consumers"},
             {"name": "vmc", "path": "harness/vmc", "serves_properties": sorted(CHECKS), "kind_free_text": "Rust harness: reference model (values, terms, CPS evaluator), exhaustive enumerators, trace conformance against /repo's library API"},
         ],
         "checks": checks,
